@@ -12,6 +12,8 @@ open Rosu
 structure OrderedFieldLaws (F : Type) [Scalar F] : Prop where
   one_mul : ∀ a : F, (1 : F) * a = a
   add_mul : ∀ a b c : F, (a + b) * c = a * c + b * c
+  add_assoc : ∀ a b c : F, (a + b) + c = a + (b + c)
+  ofInt_succ : ∀ n : Int, (Scalar.ofInt (n + 1) : F) = Scalar.ofInt n + 1
   ofNat_succ : ∀ n : Nat, (Scalar.ofNat (n + 1) : F) = Scalar.ofNat n + 1
   not_le_of_lt : ∀ a b : F, Scalar.lt a b = true → Scalar.le b a = false
   lt_of_not_le : ∀ a b : F, Scalar.le b a = false → Scalar.lt a b = true
@@ -54,6 +56,8 @@ theorem rat_le_false (a b : Rat) : (Scalar.le a b = false) = ¬ (a ≤ b) := by
 theorem rat_laws : OrderedFieldLaws Rat where
   one_mul a := by show (((1 : Nat) : Rat)) * a = a; grind
   add_mul a b c := by grind
+  add_assoc a b c := by grind
+  ofInt_succ n := by show ((n + 1 : Int) : Rat) = (n : Rat) + ((1 : Nat) : Rat); grind
   ofNat_succ n := by show ((n + 1 : Nat) : Rat) = (n : Rat) + ((1 : Nat) : Rat); grind
   not_le_of_lt a b := by rw [rat_lt, rat_le_false]; grind
   lt_of_not_le a b := by rw [rat_lt, rat_le_false]; grind
